@@ -21,8 +21,23 @@ use starlark_map::unordered_map::UnorderedMap;
 use starlark_map::unordered_set::UnorderedSet;
 use starlark_map::vec2::Vec2;
 
-#[derive(Clone, Copy, PartialEq, Eq, Hash, PartialOrd, Ord, Debug)]
+// align(4): a (Key, u8) entry is 8 bytes, so hashbrown starts its tables at the smallest size (4 buckets, capacity 3) instead
+// of the 8 buckets it gives to 2-byte entries - with few keys the growth points (4th, 8th insertion) would never be reached
+#[derive(Clone, Copy, PartialEq, Eq, PartialOrd, Ord, Debug)]
+#[repr(align(4))]
 pub struct Key(pub u8);
+
+/// The "natural" hash of a key feeds a well-spread 64-bit word to the hasher (splitmix64 of the index): hashing the bare
+/// one-byte index makes the 32-bit hash, its promoted form and the raw 64-bit hasher output agree in the bits a hash table
+/// looks at, which hid a seeded confusion between them.
+impl std::hash::Hash for Key {
+    fn hash<H: std::hash::Hasher>(&self, state: &mut H) {
+        let mut z = (self.0 as u64).wrapping_add(1).wrapping_mul(0x9E37_79B9_7F4A_7C15);
+        z = (z ^ (z >> 30)).wrapping_mul(0xBF58_476D_1CE4_E5B9);
+        z = (z ^ (z >> 27)).wrapping_mul(0x94D0_49BB_1331_11EB);
+        state.write_u64(z ^ (z >> 31));
+    }
+}
 
 pub trait Sys: Clone {
     fn canon(&self) -> Vec<u8>;
@@ -933,6 +948,9 @@ impl Sys for Vec2Sys {
 // ---------------------------------------------------------------------------
 // UnorderedMap (set-of-pairs oracle) / UnorderedSet
 
+/// keys of the unordered-map universe (capacity steps 3 -> 7 -> 14: growth at the 4th and the 8th insertion)
+const UK: usize = 9;
+
 #[derive(Clone)]
 pub struct UnordSys {
     real: UnorderedMap<Key, u8>,
@@ -958,14 +976,14 @@ impl Sys for UnordSys {
         v
     }
     fn nops(&self) -> usize {
-        UNORD_GLOBAL.len() + UNORD_OPS.len() * 6
+        UNORD_GLOBAL.len() + UNORD_OPS.len() * UK
     }
     fn op_name(&self, i: usize) -> String {
         if i < UNORD_GLOBAL.len() {
             UNORD_GLOBAL[i].to_owned()
         } else {
             let j = i - UNORD_GLOBAL.len();
-            format!("{}(k{})", UNORD_OPS[j / 6], j % 6)
+            format!("{}(k{})", UNORD_OPS[j / UK], j % UK)
         }
     }
     fn apply(&mut self, i: usize) -> Result<bool, String> {
@@ -1017,11 +1035,11 @@ impl Sys for UnordSys {
             return Ok(true);
         }
         let j = i - UNORD_GLOBAL.len();
-        let k = Key((j % 6) as u8);
+        let k = Key((j % UK) as u8);
         let pos = self.model.iter().position(|e| e.0 == k);
         use starlark_map::unordered_map::Entry as UE;
         use starlark_map::unordered_map::RawEntryMut;
-        match UNORD_OPS[j / 6] {
+        match UNORD_OPS[j / UK] {
             n @ ("insert0" | "insert1") => {
                 let v = if n == "insert0" { 0 } else { 1 };
                 let r = self.real.insert(k, v);
@@ -1140,7 +1158,7 @@ impl Sys for UnordSys {
         ensure!(eu == m, "entries_unordered");
         let ss: Vec<Key> = self.rset.entries_sorted().into_iter().copied().collect();
         ensure!(ss == m.iter().map(|e| e.0).collect::<Vec<_>>(), "set entries_sorted");
-        for k in (0..8).map(Key) {
+        for k in (0..(UK as u8 + 1)).map(Key) {
             let v = m.iter().find(|e| e.0 == k).map(|e| e.1);
             ensure!(self.real.get(&k).copied() == v, "get({:?})", k);
             ensure!(self.real.get_hashed(Hashed::new(&k)).copied() == v, "get_hashed({:?})", k);
